@@ -285,8 +285,9 @@ PROPS['C03'] = dict(
     text='Tokeniser safety (proved, unbounded in the input length up to 8192 by loop contracts): given output buffers of input length + 1 bytes, extract_element reads only inside the input, writes only '
          'inside the two buffers, consumes at most the input and a non-zero result ends on an SOH; extract_element_fixed_width likewise with a value buffer of val_sz + 1 bytes (it may report one '
          'byte more than the input when the data runs to the very end: the separator is accounted for, not checked -- stated in the contract). Call sites: extract_header passes a 32-byte tag '
-         'buffer, a 2048-byte value buffer and the caller\'s 32-byte len / mtype buffers for inputs of up to 8192 bytes: the callee\'s capacity preconditions are REFUTED there -- known findings, '
-         'reproduced with ASan on the real code (stack-buffer-overflow from a 59-byte input). NOT decided: the other tokeniser call sites (MessageBase::decode, decode_group, FIXReader::read), '
+         'buffer, a 2048-byte value buffer and the caller\'s 32-byte len / mtype buffers and shows the tokeniser at most 31 bytes per field, so the callee\'s capacity preconditions hold at all '
+         'three calls (they were refuted before fix b253198: stack-buffer-overflow from a 59-byte input, ASan); FIXReader::read\'s two calls are checked in C15 (fix 363a513). '
+         'NOT decided: the tokeniser call sites in MessageBase::decode / decode_group (2048-byte buffers against fields of up to the message length), '
          'Message::factory / decode as a whole (totality, exception types), the encode side (Message::encode(f8String&) into a fixed stack buffer, Session::send_process).',
     note='only the two char* tokenisers and extract_header\'s call sites are under contract; isdigit (C locale), memcpy (k-witness model), std::string data()/size() ASSUMED',
     trusted_base=COMMON_TRUST,
